@@ -66,7 +66,7 @@ def main():
     dest = os.path.join(VERIF, 'seeded', '%s-%s' % (pid, name))
     os.makedirs(dest, exist_ok=True)
     for fn in ('patch.diff', 'demo.py', 'README.md'):
-        if os.path.exists(os.path.join(mdir, fn)):
+        if os.path.exists(os.path.join(mdir, fn)) and os.path.abspath(mdir) != os.path.abspath(dest):
             shutil.copy(os.path.join(mdir, fn), os.path.join(dest, fn))
     with open(os.path.join(dest, 'meta.json'), 'w') as f:
         json.dump(meta, f, indent=1)
